@@ -1054,7 +1054,7 @@ func c19DurBucket(d time.Duration) string {
 	return ">60s"
 }
 
-func (pt *c19Part1) run(specs []env.KeySpec, pooled bool, sched [][2]int, sizes []int) {
+func (pt *c19Part1) run(specs []env.KeySpec, pooled bool, sched, fileSched [][2]int, sizes []int) {
 	c := pt.c
 	dp, err := newC19Deploy(specs, pooled)
 	if err != nil {
@@ -1077,6 +1077,306 @@ func (pt *c19Part1) run(specs []env.KeySpec, pooled bool, sched [][2]int, sizes 
 	for _, s := range sched {
 		pt.batch(dp, s[0], s[1], sizes)
 	}
+	for _, s := range fileSched {
+		pt.fileBatch(dp, s[0], s[1])
+	}
+}
+
+// ---- part 1b: concurrent sessions whose fsim owner modules ask for / send a file of the SAME name ----
+
+// c19FileDev is one device of a same-name file batch.
+type c19FileDev struct {
+	tag      string
+	spec     env.KeySpec
+	up       []byte // what THIS device serves as report.bin
+	down     []byte // what the owner sends THIS device as config.bin
+	devsrc   string
+	devdest  string
+	owndest  string
+	step     string
+	err      string
+	ownerGot protocol.GUID
+}
+
+const (
+	c19UpName   = "report.bin"
+	c19DownName = "config.bin"
+)
+
+// c19WhoseBytes says which devices' upload (or download) streams a wrong file is made of.
+func c19WhoseBytes(got []byte, devs []*c19FileDev, down bool) string {
+	if len(got) == 0 {
+		return "empty"
+	}
+	var parts []string
+	const blk = 512
+	last := ""
+	for off := 0; off < len(got); off += blk {
+		end := min(off+blk, len(got))
+		who := "?"
+		for _, d := range devs {
+			src := d.up
+			if down {
+				src = d.down
+			}
+			if end <= len(src) && bytes.Equal(got[off:end], src[off:end]) {
+				who = d.tag
+				break
+			}
+			if bytes.Contains(src, got[off:end]) {
+				who = d.tag + "(shifted)"
+				break
+			}
+		}
+		if who != last {
+			parts = append(parts, fmt.Sprintf("@%d:%s", off, who))
+			last = who
+		}
+		if len(parts) > 12 {
+			parts = append(parts, "...")
+			break
+		}
+	}
+	return strings.Join(parts, " ")
+}
+
+// fileChain: DI -> TO0 -> TO1 -> TO2 with the library's fsim.Upload / fsim.Download device modules.
+func (dp *c19Deploy) fileChain(d *c19FileDev) {
+	step := "DI"
+	defer func() {
+		if r := recover(); r != nil {
+			d.step, d.err = step, "panic: "+fmt.Sprint(r)
+		}
+	}()
+	fail := func(err error) { d.step, d.err = step, err.Error() }
+	ctx, cancel := context.WithTimeout(context.Background(), 150*time.Second)
+	defer cancel()
+	dev, err := dp.newDevice(ctx, d.spec, protocol.X509KeyEnc, d.tag)
+	if err != nil {
+		fail(err)
+		return
+	}
+	step = "TO0"
+	if _, err := dp.e.TO0(ctx, dev.Cred.GUID, c19Addrs); err != nil {
+		fail(err)
+		return
+	}
+	step = "TO1"
+	to1d, err := dp.e.TO1(ctx, dev)
+	if err != nil {
+		fail(err)
+		return
+	}
+	step = "TO2"
+	cfg := dev.TO2Config(c19Suites(d.spec)[0], kex.A128GcmCipher)
+	cfg.Devmod.Serial = []byte(d.tag)
+	cfg.Devmod.Device = d.tag
+	cfg.DeviceModules = map[string]serviceinfo.DeviceModule{
+		"fdo.upload":   &fsim.Upload{FS: os.DirFS(d.devsrc)},
+		"fdo.download": &fsim.Download{NameToPath: func(n string) string { return filepath.Join(d.devdest, filepath.Base(n)) }},
+	}
+	if _, err := dp.e.TO2(ctx, dev, to1d, cfg); err != nil {
+		fail(err)
+	}
+}
+
+// fileBatch: n devices onboard at the same instant; every session's owner module list is
+// [fdo.download DownloadContents{Name: config.bin, that device's content}, fdo.upload UploadRequest{Name: report.bin, Dir: that
+// session's directory}] with the modules' DEFAULT temporary files (os.CreateTemp under $TMPDIR, which is pointed at a
+// directory next to the destinations so that the final rename stays on one file system); every device serves its own
+// tagged 20-60 kB as report.bin, so the data messages of the sessions interleave.
+func (pt *c19Part1) fileBatch(dp *c19Deploy, n, procs int) {
+	c := pt.c
+	pt.batchNo++
+	id := pt.batchNo
+	extra := core.Params{"n": strconv.Itoa(n), "gomaxprocs": strconv.Itoa(procs), "store": dp.mode(), "batch": strconv.Itoa(id), "upload_name": c19UpName, "download_name": c19DownName}
+	kind := "concurrent.files"
+	base, err := os.MkdirTemp(WorkDir(), "c19-files-")
+	if err != nil {
+		c.Note("harness: %v", err)
+		return
+	}
+	defer os.RemoveAll(base)
+	tmp := filepath.Join(base, "tmp")
+	_ = os.Mkdir(tmp, 0o755)
+	prevTmp, hadTmp := os.LookupEnv("TMPDIR")
+	_ = os.Setenv("TMPDIR", tmp)
+	defer func() {
+		if hadTmp {
+			_ = os.Setenv("TMPDIR", prevTmp)
+		} else {
+			_ = os.Unsetenv("TMPDIR")
+		}
+	}()
+	mk := func(i int, tag string) *c19FileDev {
+		d := &c19FileDev{tag: tag, spec: []env.KeySpec{env.P256, env.P384}[c.Rng.Intn(2)],
+			up: make([]byte, 20000+c.Rng.Intn(40001)), down: make([]byte, 20000+c.Rng.Intn(40001))}
+		newC19Gen(tag, 'u').fill(d.up, 0)
+		newC19Gen(tag, 'w').fill(d.down, 0)
+		for _, x := range []struct {
+			p *string
+			n string
+		}{{&d.devsrc, "devsrc"}, {&d.devdest, "devdest"}, {&d.owndest, "owndest"}} {
+			*x.p = filepath.Join(base, fmt.Sprintf("%s-%d-%s", x.n, i, tag))
+			_ = os.MkdirAll(*x.p, 0o755)
+		}
+		_ = os.WriteFile(filepath.Join(d.devsrc, c19UpName), d.up, 0o644)
+		return d
+	}
+	devs := make([]*c19FileDev, n)
+	var mu sync.Mutex
+	byTag := map[string]*c19FileDev{}
+	var stray []string
+	for i := range devs {
+		devs[i] = mk(i, fmt.Sprintf("c19-f%d-d%d", id, i))
+		byTag[devs[i].tag] = devs[i]
+	}
+	prevMods := dp.e.OwnerModules
+	defer func() { dp.e.OwnerModules = prevMods }()
+	dp.e.OwnerModules = func(_ context.Context, guid protocol.GUID, dm serviceinfo.Devmod, _ []string) iter.Seq2[string, serviceinfo.OwnerModule] {
+		return func(yield func(string, serviceinfo.OwnerModule) bool) {
+			mu.Lock()
+			d := byTag[string(dm.Serial)]
+			if d == nil {
+				stray = append(stray, fmt.Sprintf("guid %x serial %q", guid[:], dm.Serial))
+			} else {
+				d.ownerGot = guid
+			}
+			mu.Unlock()
+			if d == nil {
+				return
+			}
+			if !yield("fdo.download", &fsim.DownloadContents[*bytes.Reader]{Name: c19DownName, Contents: bytes.NewReader(d.down), MustDownload: true}) {
+				return
+			}
+			yield("fdo.upload", &fsim.UploadRequest{Dir: d.owndest, Name: c19UpName})
+		}
+	}
+	c.Count("files_batch_N", strconv.Itoa(n))
+	c.Count("files_batch_GOMAXPROCS", strconv.Itoa(procs))
+	g0 := runtime.NumGoroutine()
+	dp.trDelay.Store(int64(3 * time.Millisecond))
+	dp.e.RT.Reset()
+	prev := runtime.GOMAXPROCS(procs)
+	var wg sync.WaitGroup
+	start := make(chan struct{})
+	for _, d := range devs {
+		wg.Add(1)
+		go func() { defer wg.Done(); <-start; dp.fileChain(d) }()
+	}
+	t0 := time.Now()
+	close(start)
+	all := make(chan struct{})
+	go func() { wg.Wait(); close(all) }()
+	select {
+	case <-all:
+	case <-time.After(200 * time.Second):
+		runtime.GOMAXPROCS(prev)
+		c.Fail("hang@concurrent", fmt.Sprintf("batch of %d same-name file chains did not finish within 200 s\n%s", n, c19FdoStacks(1500)), kind, extra, core.Obs{})
+		return
+	}
+	runtime.GOMAXPROCS(prev)
+	wall := time.Since(t0)
+	dp.trDelay.Store(0)
+	for _, x := range dp.e.RT.Log {
+		if x.Panic != "" {
+			c.Fail("panic@concurrent:server", fmt.Sprintf("handler panicked on message %d: %s", x.MsgType, x.Panic), kind, extra, core.Obs{})
+		}
+	}
+	dp.e.RT.Reset()
+	check := func(d *c19FileDev, k string, p core.Params) {
+		o := core.Obs{Impl: "ok"}
+		if d.step != "" {
+			o.Impl = d.step + ": " + d.err
+		}
+		// the upload as the owner stored it
+		got, rerr := os.ReadFile(filepath.Join(d.owndest, c19UpName))
+		switch {
+		case rerr != nil && d.step == "":
+			c.Fail("module-data-leak:upload", fmt.Sprintf("TO2 of %s succeeded but the owner has no %s in the session's directory: %v", d.tag, c19UpName, rerr), k, p, o)
+		case rerr == nil && !bytes.Equal(got, d.up):
+			c.Fail("module-data-leak:upload", fmt.Sprintf("the owner's copy of %s from %s has %d bytes (device served %d) made of: %s", c19UpName, d.tag, len(got), len(d.up), c19WhoseBytes(got, devs, false)), k, p, o)
+		}
+		got, rerr = os.ReadFile(filepath.Join(d.devdest, c19DownName))
+		switch {
+		case rerr != nil && d.step == "":
+			c.Fail("module-data-leak:download", fmt.Sprintf("TO2 of %s succeeded but the device has no %s: %v", d.tag, c19DownName, rerr), k, p, o)
+		case rerr == nil && !bytes.Equal(got, d.down):
+			c.Fail("module-data-leak:download", fmt.Sprintf("the copy of %s on %s has %d bytes (owner sent it %d) made of: %s", c19DownName, d.tag, len(got), len(d.down), c19WhoseBytes(got, devs, true)), k, p, o)
+		}
+	}
+	pfor := func(d *c19FileDev) core.Params {
+		p := core.Params{"tag": d.tag, "key": d.spec.Name, "up_bytes": strconv.Itoa(len(d.up)), "down_bytes": strconv.Itoa(len(d.down))}
+		for k, v := range extra {
+			p[k] = v
+		}
+		return p
+	}
+	for _, d := range devs {
+		c.Rep.Evaluations++
+		c.Count("files_chain_outcome", func() string {
+			if d.step == "" {
+				return "ok"
+			}
+			return d.step + "|" + clipS(c19StripTime(d.err), 90)
+		}())
+		check(d, kind, pfor(d))
+	}
+	mu.Lock()
+	for _, s := range stray {
+		c.Fail("module-data-leak", "owner modules were requested for a devmod serial that no running device has: "+s, kind, extra, core.Obs{})
+	}
+	stray = nil
+	mu.Unlock()
+	// leftovers in the temporary directory: a finished session renames its file away
+	if left, _ := os.ReadDir(tmp); len(left) > 0 {
+		allOK := true
+		for _, d := range devs {
+			allOK = allOK && d.step == ""
+		}
+		if allOK {
+			var names []string
+			for _, f := range left {
+				names = append(names, f.Name())
+			}
+			c.Count("files_tmp_leftover", clipS(strings.Join(names, ","), 80))
+		}
+	}
+	if got, ok := c19Settle(g0, 3, 3*time.Second); !ok {
+		c.Fail("goroutine-leak", fmt.Sprintf("%d goroutines before the same-name file batch, %d three seconds after it\n%s", g0, got, c19FdoStacks(1500)), kind, extra, core.Obs{})
+	}
+	// failed chains: the same device configuration alone
+	soloed := 0
+	for i, d := range devs {
+		if d.step == "" {
+			continue
+		}
+		p := pfor(d)
+		alone := "not-run"
+		if soloed < 2 {
+			soloed++
+			s := mk(1000+i, d.tag+"-solo")
+			s.spec = d.spec
+			mu.Lock()
+			byTag[s.tag] = s
+			mu.Unlock()
+			dp.fileChain(s)
+			c.Rep.Evaluations++
+			alone = "ok"
+			if s.step != "" {
+				alone = s.step + ": " + s.err
+			}
+			check(s, "concurrent.files.solo", pfor(s))
+		}
+		p["alone"] = clipS(alone, 200)
+		if alone == "ok" || alone == "not-run" {
+			c.Fail("concurrent-run-failed:"+d.step, fmt.Sprintf("%s failed among %d concurrent devices whose owner modules all request %q / send %q (%s, GOMAXPROCS=%d): %s; alone: %s",
+				d.step, n, c19UpName, c19DownName, dp.mode(), procs, d.err, alone), kind, p, core.Obs{Impl: d.step + ": " + d.err})
+		} else {
+			c.Count("fails_alone_too", "files "+clipS(c19StripTime(alone), 260))
+		}
+	}
+	c.Note("same-name file batch %d (%s): N=%d GOMAXPROCS=%d chains took %.1fs", id, dp.mode(), n, procs, wall.Seconds())
 }
 
 // ---- part 2: the device-side pipeline ----
@@ -1424,7 +1724,10 @@ func (pp *c19Pipe) fsimRun(size int, urlFirst bool, nameAt int, srvDelay time.Du
 		return
 	}
 	ob := core.Obs{Impl: fmt.Sprint("err=", err)}
-	if err != nil {
+	if err != nil && urlFirst && strings.Contains(err.Error(), "name not sent before file download completed") {
+		// the download goroutine was faster than the owner's next message: fsim.Wget's documented answer to this order
+		c.Count("pipeline_outcome", "fsim-wget-name-late")
+	} else if err != nil {
 		c.Count("pipeline_outcome", "fsim-error")
 		c.Fail("pipeline-run-failed:fsim", err.Error(), kind, p, ob)
 	} else {
@@ -1533,13 +1836,23 @@ func c19ParseRaces(text string) []c19Race {
 	return out
 }
 
+// c19FirstFdo: the first library frame of a stack; frames of the cbor package (which only moves bytes on behalf of its
+// caller) are passed over when another library frame follows, so that a race on a module's field is named after the module.
 func c19FirstFdo(fr []string) string {
+	first := ""
 	for _, f := range fr {
-		if strings.Contains(f, "go-fdo") {
-			return strings.TrimPrefix(f, "github.com/fido-device-onboard/")
+		if !strings.Contains(f, "go-fdo") {
+			continue
+		}
+		f = strings.TrimPrefix(f, "github.com/fido-device-onboard/")
+		if first == "" {
+			first = f
+		}
+		if !strings.HasPrefix(f, "go-fdo/cbor.") {
+			return f
 		}
 	}
-	return ""
+	return first
 }
 
 // c19CollectRaces reads the race detector's log files and reports every distinct race with library frames.
@@ -1609,14 +1922,20 @@ func RunC19(c *core.Ctx) {
 		"succeeds alone), voucher-mixup (GUID reused; replacement voucher missing / not verifying under the device's own HMAC secret / not matching the device " +
 		"credential), module-data-leak (any byte, devmod serial, module list, GUID or stream length seen by a module that is not its own session's), effects-mismatch " +
 		"(journal per GUID must be exactly 1 di-voucher, 1 rv-blob, 1 module-invoke, 1 voucher-replace), panic@concurrent, hang@concurrent (request > 20 s or batch > 200 s), " +
-		"goroutine-leak. Part 2 - single TO2 runs with fixed delays in {0,1,5} ms in device module x transport x owner module (all 27 permutations) and random delays, " +
+		"goroutine-leak. " +
+		"Part 1b - N devices (quick {2,4}, thorough {2,4,8,16}) onboard at the same instant against the same deployment while every session's owner module list is " +
+		"[fsim.DownloadContents{Name: config.bin, that device's own 20-60 kB}, fsim.UploadRequest{Name: report.bin, Dir: that session's own directory}] with the modules' DEFAULT " +
+		"temporary files (os.CreateTemp; $TMPDIR points next to the destinations), every device serving its own tagged 20-60 kB as report.bin through fsim.Upload and receiving through " +
+		"fsim.Download: module-data-leak:upload / module-data-leak:download (a stored file is missing or is not bit-identical to what ITS session's peer served; the detail says whose " +
+		"bytes it is made of), concurrent-run-failed:<step> (compared with the same configuration alone). " +
+		"Part 2 - single TO2 runs with fixed delays in {0,1,5} ms in device module x transport x owner module (all 27 permutations) and random delays, " +
 		"devmod with 0/20/200 extra module names, device and owner streams of 0 / 1 KB / 64 KB (at most ~120 logical service infos per round: below the documented bound " +
 		"of 1000 buffered service infos per direction, to2.go exchangeServiceInfo), 30 s watchdog (deadlock@device-pipeline:<mode> with the library goroutines' stacks), " +
 		"context cancellation at a random 68 (slow-return-after-cancel, cancel-ignored, goroutine-leak-after-cancel), transport failure at a 68 while a device module " +
 		"sits inside Receive (module-context-not-cancelled), and TO2s with the library's fsim download/upload/wget device modules. " +
 		"DATA RACES: the caller must run a binary built with -race with GORACE=\"log_path=<dir>/race exitcode=0\" and VERIF_RACE_DIR=<dir> (default: the work directory next " +
 		"to the binary); at the end every file <dir>/race.* is parsed and each distinct report whose access stacks contain a go-fdo frame becomes a failure " +
-		"data-race:<first library frame> (deduplicated by the first library frame of each access stack); reports without any library frame are harness races and are only counted in a note."
+		"data-race:<first library frame> (the first go-fdo frame outside the cbor package; deduplicated by that frame of each access stack); reports without any library frame are harness races and are only counted in a note."
 	if !raceEnabled {
 		c.Note("race detector not enabled: this binary was built without -race; only the functional monitors run")
 	}
@@ -1661,9 +1980,24 @@ func RunC19(c *core.Ctx) {
 		t1 := time.Now()
 		s := sched
 		if quick && pooled {
-			s = [][2]int{{2, 16}, {8, 1}, {32, 2}}
+			// (time budget: since sqlite.Open itself limits the pool to one connection both modes run every chain to its end;
+			// N=32 is left to the single-connection deployment)
+			s = [][2]int{{2, 16}, {8, 1}}
 		}
-		pt.run(specs, pooled, s, sizes)
+		var fs [][2]int
+		switch {
+		case quick && !pooled:
+			fs = [][2]int{{2, 16}, {4, 2}}
+		case quick:
+			fs = [][2]int{{4, 1}}
+		default:
+			for _, n := range []int{2, 4, 8, 16} {
+				for _, procs := range []int{1, 2, 16} {
+					fs = append(fs, [2]int{n, procs})
+				}
+			}
+		}
+		pt.run(specs, pooled, s, fs, sizes)
 		c.Note("part 1 (%s): %.1fs", map[bool]string{false: "single connection", true: "pooled connections"}[pooled], time.Since(t1).Seconds())
 	}
 
@@ -1714,7 +2048,7 @@ func RunC19(c *core.Ctx) {
 		}
 		c.Note("part 2, 27 delay permutations: %.1fs", time.Since(t2).Seconds())
 		t3 := time.Now()
-		nRand, nCancel, nFail, nFsim := 6, 6, 4, 2
+		nRand, nCancel, nFail, nFsim := 4, 6, 4, 3
 		if !quick {
 			nRand, nCancel, nFail, nFsim = 150, 80, 40, 12
 		}
@@ -1745,7 +2079,14 @@ func RunC19(c *core.Ctx) {
 		c.Note("part 2, transport failures: %.1fs", time.Since(t3).Seconds())
 		t3 = time.Now()
 		for k := 0; k < nFsim; k++ {
-			pp.fsimRun([]int{3000, 70000}[k%2], k%2 == 0 || k%3 == 0, 2, time.Duration(5+c.Rng.Intn(30))*time.Millisecond)
+			switch k % 3 {
+			case 0: // url before name, fast server: the download ends before the name arrives
+				pp.fsimRun(3000, true, 2, 0)
+			case 1: // the library's own WgetCommand (name, sha-384, url)
+				pp.fsimRun(70000, false, 2, time.Duration(5+c.Rng.Intn(30))*time.Millisecond)
+			default: // url before name, slow server: the name arrives while the download runs
+				pp.fsimRun(20000, true, 2, time.Duration(20+c.Rng.Intn(30))*time.Millisecond)
+			}
 		}
 		pp.sideProbe()
 		c.Note("part 2, fsim modules and side probe: %.1fs", time.Since(t3).Seconds())
